@@ -13,6 +13,7 @@ import LouProofs.C02
 import LouProofs.C04Back
 import LouModel.Engine
 import LouProofs.FwdCOK
+import LouProofs.BackCOK
 
 namespace Lou.ModelEngine
 open Lou Lou.Gen Lou.Drv Lou.Contract
@@ -199,16 +200,54 @@ theorem callFwd_eq (t : Table) (disp : Nat → Nat) (a : Args) (r : Result) (hs 
         · cases h
         · cases h; exact ⟨rfl, rfl⟩
 
+/-- the backward engine with the context main pass satisfies the clauses the backward driver theorems use -/
+theorem modelEngineBackC_ok (t : Table) : C02.EngineOKBack (Engine.modelEngineBackC t) := by
+  intro ini hist pin
+  unfold Engine.modelEngineBackC
+  split
+  · cases hr : BackC.translateC t ini.mode pin.chars pin.maxlen pin.cpos with
+    | unsupported => exact ⟨Nat.zero_le _, Nat.zero_le _⟩
+    | fuel => exact ⟨Nat.zero_le _, Nat.zero_le _⟩
+    | failed => exact ⟨Nat.zero_le _, Nat.zero_le _⟩
+    | done r =>
+      have h := BackCOK.translateC_contract t ini.mode pin.chars pin.maxlen pin.cpos r hr
+      exact ⟨h.1, h.2⟩
+  · have h := C06Pass.backStage_contract t pin.passNo pin.chars pin.maxlen
+    cases hs : Pass.backStage t pin.passNo pin.chars pin.maxlen with
+    | unsupported => exact ⟨Nat.zero_le _, Nat.zero_le _⟩
+    | fuel => exact ⟨Nat.zero_le _, Nat.zero_le _⟩
+    | done o =>
+      rw [hs] at h
+      exact ⟨h.1, h.2.2⟩
+
+theorem engineForBack_ok (t : Table) : C02.EngineOKBack (Engine.engineForBack t) := by
+  unfold Engine.engineForBack
+  split
+  · exact modelEngineBackC_ok t
+  · exact modelEngineBack_ok t
+
 theorem callBack_eq (t : Table) (dotsFor : Nat → Nat) (a : Args) (r : Result) (hs : List (PassIn × PassOut))
     (h : Engine.callBack t dotsFor a = .ok (r, hs)) :
-    r = back (some (Engine.tableInfo t)) dotsFor (modelEngineBack t) a := by
+    r = back (some (Engine.tableInfo t)) dotsFor (Engine.engineForBack t) a := by
   unfold Engine.callBack at h
   split at h
   · cases h
   · simp only [] at h
     split at h
     · cases h
-    · cases h; rfl
+    · split at h
+      · cases h
+      · cases h; rfl
+
+/-- **whole_call_back_lengths**: every result the backward whole-call model prints has its lengths within what the
+    caller passed -/
+theorem whole_call_back_lengths (t : Table) (dotsFor : Nat → Nat) (a : Args) (r : Result) (hs : List (PassIn × PassOut))
+    (h : Engine.callBack t dotsFor a = .ok (r, hs)) (hret : r.ret = 1) :
+    0 ≤ r.inlen ∧ r.inlen ≤ a.inbuf.length ∧ 0 ≤ r.outlen ∧ r.outlen ≤ a.outlen := by
+  have he := callBack_eq t dotsFor a r hs h
+  subst he
+  have h' := C04.back_lengths (Engine.tableInfo t) dotsFor (Engine.engineForBack t) a (engineForBack_ok t) hret
+  exact ⟨h'.1, h'.2.2.1, h'.2.2.2.1, h'.2.2.2.2⟩
 
 /-- **whole_call_fwd**: every result the whole-call model prints satisfies the length clauses of C04 — consumed and
     produced lengths within what the caller passed -/
